@@ -359,9 +359,9 @@ Section Keys.
 
   Theorem compile_order_shallow o1 o2 :
     (forall a b c, splits_to es cx a b -> splits_to es cx b c -> False) ->
-    compile es cx svc o1 = compile es cx svc o2.
+    compile_ord es cx svc o1 = compile_ord es cx svc o2.
   Proof.
-    intros Hno. unfold compile. destruct (assemble es cx svc) as [[[st start] router]|e] eqn:Ea; [|reflexivity].
+    intros Hno. unfold compile_ord. destruct (assemble es cx svc) as [[[st start] router]|e] eqn:Ea; [|reflexivity].
     destruct (detect _ _ [] start); try reflexivity.
     set (ns := to_nodes svc st router).
     assert (Hsch : forall a b, schild ns a b -> exists x y, a = NSplitter x /\ b = NSplitter y /\ splits_to es cx x y).
